@@ -29,6 +29,8 @@ from __future__ import annotations
 
 import itertools
 import pickle
+import signal
+import time
 import types
 
 import numpy as np
@@ -38,6 +40,24 @@ from harness import programs as P
 from harness.core import f_list
 
 SYNC = {"scheduler": "sync"}
+
+class Hang(Exception):
+    pass
+
+
+def with_timeout(seconds, fn):
+    """Run fn() in the main thread with a watchdog (a hang must become a reported failure, not a stuck check)."""
+    def handler(signum, frame):
+        raise Hang()
+
+    old = signal.signal(signal.SIGALRM, handler)
+    signal.alarm(seconds)
+    try:
+        return fn()
+    finally:
+        signal.alarm(0)
+        signal.signal(signal.SIGALRM, old)
+
 
 # ---------------------------------------------------------------------------- generators
 
@@ -356,6 +376,13 @@ def check_case(ctx, case, progs=None, nprog=3, seeds=True):
             try:
                 with dask.config.set({"array.optimize-graph": opt}):
                     y = run_prog(prog, x, True)
+            except (ValueError, NotImplementedError, TypeError, IndexError) as e:
+                # refused while BUILDING the derived program (nothing was computed): a refusal, not wrong data
+                ctx.notes["derived_program_refused_at_build"] = ctx.notes.get("derived_program_refused_at_build", 0) + 1
+                ctx.extra.setdefault("derived_program_refusal_sample", {"dist": case["dist"], "prog": prog, "error": repr(e)[:160]})
+                break
+            try:
+                with dask.config.set({"array.optimize-graph": opt}):
                     got = y.compute(**SYNC)
                 ok = same(got, want, approx)
                 err = None
@@ -553,13 +580,14 @@ def probe_known(ctx):
 
 def search(ctx):
     rng = ctx.rng
-    n = ctx.scale(70, 900)
+    n = ctx.scale(220, 3000)
     # every distribution x generator kind at least once (stratified), then random
     strat = [(k, d) for d in DISTS for k in GEN_KINDS]
     rng.shuffle(strat)
-    budget = ctx.scale(38, 540)
+    budget = ctx.scale(25, 420)  # seconds of search proper
+    t0 = time.time()
     for i in range(n):
-        if ctx.elapsed() > budget:
+        if time.time() - t0 > budget:
             ctx.notes["search_stopped_on_budget_after"] = i
             break
         if i < len(strat):
@@ -569,7 +597,10 @@ def search(ctx):
             case = rand_case(rng)
         ctx.sample({"case": case}) if i < 3 else None
         try:
-            check_case(ctx, case, nprog=ctx.scale(2, 4), seeds=(i % 3 == 0))
+            with_timeout(90, lambda: check_case(ctx, case, nprog=ctx.scale(2, 4), seeds=(i % 3 == 0)))
+        except Hang:
+            ctx.fail("random:hang", case, "building / optimising / computing a random array and its derived programs does not finish within 90 s")
+            break
         except NotImplementedError as e:
             ctx.notes["refused"] = ctx.notes.get("refused", 0) + 1
             ctx.notes.setdefault("refused_sample", repr(e)[:120] + " " + repr(case)[:200])
@@ -616,12 +647,19 @@ def run(ctx, replay=None):
             probe_known(ctx)
             ctx.correspond("flat_index", flat_pairs(ctx))
         return
-    ctx.correspond("flat_index", flat_pairs(ctx))
-    ctx.correspond("grid", grid_pairs(ctx))
-    ctx.correspond("draw", draw_pairs(ctx))
+    fk = lambda req, model: (req.split()[0], len(req.split()[1].split(",")), model.split()[0])
+    try:
+        ctx.correspond("flat_index", with_timeout(120, lambda: flat_pairs(ctx)), branch_key=fk)
+        ctx.correspond("grid", grid_pairs(ctx), branch_key=fk)
+        ctx.correspond("draw", with_timeout(120, lambda: draw_pairs(ctx)), branch_key=fk)
+    except Hang:
+        ctx.fail("random:hang", {"where": "constructing random arrays for the correspondence"}, "constructing random arrays does not finish within 120 s")
     ctx.exhaustive = True
     ctx.extra["exhaustive_domain"] = "_block_id_to_flat_index: every block id of every grid of rank<=3 with <=40 blocks (sizes 1..3 quick / 1..4 thorough), with and without a trailing extra_chunks coordinate"
-    probe_known(ctx)
+    try:
+        with_timeout(120, lambda: probe_known(ctx))
+    except Hang:
+        ctx.fail("random:hang", {"where": "probe_known"}, "the known-class probes do not finish within 120 s")
     search(ctx)
     if ctx.disagreements:
         targeted(ctx)
